@@ -254,6 +254,39 @@ def fail_with_output_path(viol):
                                          "dirs": [x for x in dirs_after if x not in dirs_before]}})
             finally:
                 shutil.rmtree(d, ignore_errors=True)
+    # the same through the command line: whatever makes the run fail (usage error, missing input, raising formatter), an
+    # output file that already exists keeps its bytes and nothing new appears
+    from flowmark.cli import main as _cli_main
+    for failure in ("two-inputs", "missing", "formatter-raises", "stdin-and-file"):
+        d = scratch_dir("vf-c14-")
+        try:
+            for nm in ("a.md", "b.md"):
+                open(os.path.join(d, nm), "w").write(OPTION_DOC)
+            out = os.path.join(d, "OUT.md")
+            open(out, "w").write("complete old output\n")
+            argv, stdin = {"two-inputs": (["-o", out, "a.md", "b.md"], None), "missing": (["-o", out, "nope.md"], None),
+                           "formatter-raises": (["-o", out, "-"], OPTION_DOC), "stdin-and-file": (["-o", out, "-", "a.md"], OPTION_DOC)}[failure]
+            orig = api.reformat_text
+            if failure == "formatter-raises":
+                def boom2(*a, **kw):
+                    raise RuntimeError("injected formatter failure")
+                api.reformat_text = boom2
+            before = snapshot(d)
+            try:
+                with in_dir(d), captured(stdin_text=stdin):
+                    try:
+                        rc = _cli_main(argv)
+                    except BaseException as e:
+                        rc = "exc:" + type(e).__name__
+            finally:
+                api.reformat_text = orig
+            after = snapshot(d)
+            n += 1
+            if rc == 0 or after != before:
+                viol.append({"clause": "failure_modifies_nothing", "input": {"argv": [a if a != out else "OUT.md" for a in argv], "failure": failure, "output_exists": True},
+                             "got": {"rc": str(rc), "files": sorted(set(after) ^ set(before)) or [k for k in after if after[k] != before.get(k)]}})
+        finally:
+            shutil.rmtree(d, ignore_errors=True)
     # without -i / --auto the input file is never touched, whatever other switches are given
     import itertools
     from flowmark.cli import main as _main
